@@ -307,3 +307,15 @@ Theorem C13_stored_tx_is_typed :
   Conservation.wf_tx cfg (abs_tx txid_of key_id addr_id name_id sig_by sig_msg signer_invalid t).
 Proof. exact stored_tx_is_typed. Qed.
 Print Assumptions C13_stored_tx_is_typed.
+
+(* non-vacuity (main-net constants): the decoder returns transactions in both modes; the payload kind always follows the
+   version byte (the bytes of a transfer behind version byte 4 are read as a Stake; bytes after the fee are not looked
+   at); an overlong uvarint (tenth byte 2 = bit 64) is refused, not truncated to 64 bits *)
+Theorem C13_decoded_tx_examples :
+  result_of (run (dec_tx cfg_mainnet true) (ex_tx_bytes true)) = ROk (ex_tx 1) /\
+  result_of (run (dec_tx cfg_mainnet false) (ex_tx_bytes false)) = ROk (ex_tx 0) /\
+  result_of (run (dec_tx cfg_mainnet true) (4 :: ex_tx_bytes false)) = ROk (mktx 4 (zeros 32) (zeros 64) (Stake 1 0 0) 0 0) /\
+  result_of (run (dec_tx cfg_mainnet true)
+              ([1] ++ zeros 32 ++ zeros 64 ++ [1] ++ zeros 22 ++ [0; 5] ++ [1] ++ [128; 128; 128; 128; 128; 128; 128; 128; 128; 2])) = RErr.
+Proof. exact decoded_tx_examples. Qed.
+Print Assumptions C13_decoded_tx_examples.
